@@ -112,3 +112,16 @@ Proof.
 Qed.
 
 Example C01_labels_nonvacuous := labels_nonvacuous_partition.
+
+(* a fit call that meets a malformed row stops exactly there: the rows before it are in, with
+   their labels, nothing after it is, and the call reports the error *)
+From BB Require Import Proofs.Small2.
+Theorem C01_fit_stops_at_first_bad : forall fexp st rows labels st' out,
+  st_inv st -> nf_ok st -> op_wf_l st (OFit rows labels) ->
+  released st = false -> rows <> [] ->
+  do_fit fexp st rows labels = (st', out) ->
+  st_inv st' /\
+  nfit st' = nfit st + Z.of_nat (first_bad rows) /\
+  Permutation (mem_ids st') (mem_ids st ++ firstn (first_bad rows) (fit_labels st rows labels)) /\
+  (out = Ok <-> first_bad rows = length rows).
+Proof. exact do_fit_stops_at_first_bad. Qed.
